@@ -1,19 +1,221 @@
-/- T2N.Spec.SpellFr — STUB (to be replaced by the specification of fr spellings) -/
+/-
+  T2N.Spec.SpellFr — French spellings: cardinals below 10^12 with their accepted variants,
+  ordinals (ranks 1..10^6) with gender / number, decimals, digit dictation. Written from French
+  orthography (traditional rules and the 1990 "rectifications") and the repository's tests.
+
+  Groups: g = 0 units, 1 `mille`, 2 `million`, 3 `milliard`. `million` and `milliard` are nouns
+  (`un million`, plural `millions`); `mille` is an invariable numeral that never takes `un`.
+
+  Variant axes (independent per group `g` / choice point `cp g j`):
+    * (cp g 0), 3 values — hyphenation of the group:
+        0 traditional: hyphens inside the part below 100 (`quatre-vingt-dix-sept`), spaces around `et`
+          (`vingt et un`) and around `cent`, `mille`;
+        1 spaces everywhere (`quatre vingt dix sept`);
+        2 1990 reform: every word of the group hyphenated (`deux-cent-vingt-et-un`), including the
+          invariable numeral `mille` after group 1 (`deux-cent-mille`); `mille` is hyphenated to the
+          units group as well when that group is written in the reform style too
+          (`sept-cent-mille-trois-cent-vingt-et-un`). The nouns `million(s)`, `milliard(s)` are never
+          hyphenated to their neighbours.
+    * (cp g 1) 70..79: `soixante-dix` | `septante`
+    * (cp g 2), 3 values, 80..89: `quatre-vingt(s)` | `huitante` | `octante`
+    * (cp g 3) 90..99: `quatre-vingt-dix` | `nonante`
+    * (cp g 4) `cents` (multiplied, nothing follows in the group, not before `mille`) | `cent`
+    * (cp g 5) `quatre-vingts` (nothing follows in the group, not before `mille`) | `quatre-vingt`
+    * (cp g 6), g = 2, 3: plural `millions` / `milliards` (group value > 1) | without `s`
+    * (cp 1 7) `mille` | `mil` (only 1001..1999, i.e. `mil` begins the number and is followed by
+      other numerals, as in dates: `mil neuf cent vingt`)
+  Fixed by the orthography (no choice): `et` in 21, 31, 41, 51, 61, 71 and after `septante`, `huitante`,
+  `octante`, `nonante` (`nonante et un`); no `et` in 81, 91 (`quatre-vingt-un`, `quatre-vingt-onze`), in
+  `cent un`, `mille un`; no `un` before `cent` / `mille`; `un million`, `un milliard`.
+  Fractions read choice points of groups 0 and 1 (the digits after the leading zeros are one cardinal).
+
+  Ordinals: the last numeral of the cardinal takes `-ième` (`unième` after tens / hundreds / `mille`;
+  `premier` for rank 1; rank 10^6 is `millionième`), plural marks of `cent` / `vingt` dropped, `mille` not
+  `mil`. Inflections: 0 `-ième` / `premier`, 1 `-ièmes` / `premiers`, 2 `première`, 3 `premières`
+  (2, 3 for rank 1 only). `second(e)` is not an ordinal for the library (its tests keep it), so it is not
+  spelled here.
+
+  Not included (non-standard, although the library may accept them): `cents` / `vingts` before another
+  numeral (`deux cents trois`), `vingt un`, `mille millions`, `un` before `cent` / `mille`.
+-/
 import T2N.Spec.Basic
 
 namespace T2N.Spec.Fr
 
+def unitWords : List Word := [w!"zéro", w!"un", w!"deux", w!"trois", w!"quatre", w!"cinq", w!"six", w!"sept",
+  w!"huit", w!"neuf", w!"dix", w!"onze", w!"douze", w!"treize", w!"quatorze", w!"quinze", w!"seize"]
+
+def tensWords : List Word := [[], [], w!"vingt", w!"trente", w!"quarante", w!"cinquante", w!"soixante"]
+
+def unitWord (n : Nat) : Word := unitWords.getD n []
+
+/-- 1..19 as numerals (`dix-sept` is `dix`, `sept`) -/
+def teens (n : Nat) : List Word :=
+  if n < 17 then [unitWord n] else [w!"dix", unitWord (n - 10)]
+
+/-- a tens word followed by a unit 0..9, with `et` before `un` -/
+def regular (tens : Word) (u : Nat) : List Word :=
+  if u == 0 then [tens]
+  else if u == 1 then [tens, w!"et", w!"un"]
+  else [tens, unitWord u]
+
+/-- numerals of 1..99; `sOk`: the plural mark of `quatre-vingts` may be written (nothing follows) -/
+def below100 (v : Var) (g n : Nat) (sOk : Bool) : List Word :=
+  if n < 20 then teens n
+  else
+    let t := n / 10
+    let u := n % 10
+    if t < 7 then regular (tensWords.getD t []) u
+    else if t == 7 then
+      if flag v (cp g 1) then regular w!"septante" u
+      else if u == 1 then [w!"soixante", w!"et", w!"onze"]
+      else w!"soixante" :: teens (10 + u)
+    else if t == 8 then
+      match pick v (cp g 2) 3 with
+      | 0 =>
+        if u == 0 then [w!"quatre", if sOk && !flag v (cp g 5) then w!"vingts" else w!"vingt"]
+        else [w!"quatre", w!"vingt", unitWord u]
+      | 1 => regular w!"huitante" u
+      | _ => regular w!"octante" u
+    else
+      if flag v (cp g 3) then regular w!"nonante" u
+      else w!"quatre" :: w!"vingt" :: teens (10 + u)
+
+/-- join numerals with hyphens into one word -/
+def hyphenate : List Word → Word
+  | [] => []
+  | [w] => w
+  | w :: ws => w ++ ['-'] ++ hyphenate ws
+
+/-- numerals of the hundreds part -/
+def hundreds (v : Var) (g h : Nat) (sOk : Bool) : List Word :=
+  if h == 0 then []
+  else if h == 1 then [w!"cent"]
+  else [unitWord h, if sOk && !flag v (cp g 4) then w!"cents" else w!"cent"]
+
+/-- 1..999 as words, in the hyphenation style of the group; `sOk`: plural marks allowed (not before `mille`) -/
+def group (v : Var) (g n : Nat) (sOk : Bool) : List Word :=
+  let h := n / 100
+  let r := n % 100
+  let hs := hundreds v g h (sOk && r == 0)
+  let rs := if r == 0 then [] else below100 v g r sOk
+  match pick v (cp g 0) 3 with
+  | 0 => hs ++ (if rs.isEmpty then [] else if rs.contains w!"et" then rs else [hyphenate rs])
+  | 1 => hs ++ rs
+  | _ => [hyphenate (hs ++ rs)]
+
+def reform (v : Var) (g : Nat) : Bool := pick v (cp g 0) 3 == 2
+
+/-- thousands: `mille` is invariable and takes no `un` -/
+def thousands (v : Var) (n : Nat) (mil : Bool) : List Word :=
+  if n == 0 then []
+  else if n == 1 then [if mil && flag v (cp 1 7) then w!"mil" else w!"mille"]
+  else if reform v 1 then [hyphenate (group v 1 n false ++ [w!"mille"])]
+  else group v 1 n false ++ [w!"mille"]
+
+/-- the nouns `million`, `milliard` (g = 2, 3) with their count -/
+def scaled (v : Var) (g n : Nat) : List Word :=
+  if n == 0 then []
+  else
+    let base : Word := if g == 2 then w!"million" else w!"milliard"
+    group v g n true ++ [if n > 1 && !flag v (cp g 6) then base ++ ['s'] else base]
+
+/-- the thousands and the units; in the reform style `mille` is hyphenated to what follows -/
+def low (v : Var) (g1 g0 : Nat) (mil : Bool) : List Word :=
+  let p1 := thousands v g1 mil
+  let p0 := if g0 == 0 then [] else group v 0 g0 true
+  if g1 != 0 && g0 != 0 && reform v 1 && reform v 0 then [hyphenate (p1 ++ p0)] else p1 ++ p0
+
+/-- cardinal, `n < 10^12` -/
+def cardinal (v : Var) (n : Nat) : List Word :=
+  if n == 0 then [w!"zéro"]
+  else
+    let g3 := n / 1000000000 % 1000
+    let g2 := n / 1000000 % 1000
+    let g1 := n / 1000 % 1000
+    let g0 := n % 1000
+    scaled v 3 g3 ++ scaled v 2 g2 ++ low v g1 g0 (g3 == 0 && g2 == 0 && g0 != 0)
+
+/-! ### ordinals -/
+
+def dropLast (w : Word) : Word := w.take (w.length - 1)
+
+/-- ordinal of a numeral: `quatre → quatrième`, `cinq → cinquième`, `neuf → neuvième`, `cent → centième` -/
+def ordinalOfNumeral (w : Word) : Word :=
+  let stem : Word :=
+    if w == w!"cinq" then w!"cinqu"
+    else if w == w!"neuf" then w!"neuv"
+    else if w.getLast? == some 'e' then dropLast w
+    else w
+  stem ++ w!"ième"
+
+/-- the last word of a spelling with its last hyphen component made ordinal -/
+def ordinalOfLastWord (w : Word) : Word :=
+  match (w.splitOn '-').reverse with
+  | [] => w
+  | u :: ts => hyphenate (ts.reverse ++ [ordinalOfNumeral u])
+
+/-- ordinal `2 ≤ n ≤ 10^6`, masculine singular: the cardinal (no plural marks, `mille` not `mil`)
+with its last numeral made ordinal -/
+def ordinalWords (v : Var) (n : Nat) : List Word :=
+  if n == 1000000 then [w!"millionième"]
+  else
+    let v' : Var := fun i => if i % 16 == 4 || i % 16 == 5 then 1 else if i == cp 1 7 then 0 else v i
+    match (cardinal v' n).reverse with
+    | [] => []
+    | last :: rest => (ordinalOfLastWord last :: rest).reverse
+
+def pluralize (ws : List Word) : List Word :=
+  match ws.reverse with
+  | [] => []
+  | last :: rest => ((last ++ ['s']) :: rest).reverse
+
+def ordinal (v : Var) (n i : Nat) : Option (List Word × Word) :=
+  if n == 0 || n > 1000000 then none
+  else if n == 1 then
+    match i with
+    | 0 => some ([w!"premier"], w!"er")
+    | 1 => some ([w!"premiers"], w!"ers")
+    | 2 => some ([w!"première"], w!"ère")
+    | 3 => some ([w!"premières"], w!"ères")
+    | _ => none
+  else
+    match i with
+    | 0 => some (ordinalWords v n, w!"ème")
+    | 1 => some (pluralize (ordinalWords v n), w!"èmes")
+    | _ => none
+
+/-! ### decimals and dictation -/
+
+def sepWord : Word := w!"virgule"
+def decMark : Char := ','
+
+def valueOf (ds : List Nat) : Nat := ds.foldl (fun a d => 10 * a + d) 0
+
+/-- leading zeros are spoken one by one, the remaining digits are read as one cardinal -/
+def fraction (v : Var) (ds : List Nat) : List Word :=
+  let zs := ds.takeWhile (· == 0)
+  let rest := ds.dropWhile (· == 0)
+  zs.map (fun _ => w!"zéro") ++ (if rest.isEmpty then [] else cardinal v (valueOf rest))
+
+def zeroWord : Word := w!"zéro"
+
+def digitWord (d : Nat) : Word := unitWord d
+
+/-- the conjunction that may stand between two numbers -/
+def conj : Word := w!"et"
+
 def speller : Speller where
   code := "fr"
-  cardinal := fun _ _ => []
-  nInfl := 0
-  ordMax := 0
-  ordinal := fun _ _ _ => none
-  sepWord := []
-  decMark := ','
-  fraction := fun _ _ => []
-  zeroWord := []
-  digitWord := fun _ => []
-  conj := []
+  cardinal := cardinal
+  nInfl := 4
+  ordMax := 1000000
+  ordinal := ordinal
+  sepWord := sepWord
+  decMark := decMark
+  fraction := fraction
+  zeroWord := zeroWord
+  digitWord := digitWord
+  conj := conj
 
 end T2N.Spec.Fr
